@@ -39,7 +39,7 @@ ORCH = 'chainables.orchestrate'
 
 
 def run(ctx: Ctx):
-  for r in (r1, r2, r3, r4, r6, r7, r8, r12, r13, r15):
+  for r in (r1, r2, r3, r4, r6, r7, r8, r12, r13, r15, r17):
     ctx.guard(r)
   from mlmverif.props import c09
   from mlmverif.props import c13, c16
@@ -123,6 +123,9 @@ def _c04_shared(sub, m):
   from mlmverif.props import c04
   sub.guard(c04.r6, m)
   sub.guard(c04.r5, m)
+  # the interleaved stage runner links its stages with asyncio-backed bounded queues: both buffer kinds' "full"/"empty"
+  # signals are waited on (R-C04-16)
+  sub.guard(c04.r16, m)
 
 
 def _c09_shared(sub):
@@ -622,10 +625,59 @@ def r15(ctx: Ctx):
   ctx.floor(rule, 2, n)
 
 
+def r17(ctx: Ctx):
+  rule = 'R-C03-17'
+  ctx.rule(rule, '"as a chain of named stages ... the same aggregate results": a result that is assembled over the stages of a chain'
+           ' is CARRIED through the loop. In transform.py a name that is bound to a fresh container before a `for` loop'
+           ' (`result = tree.TreeMapView()`) and re-bound inside it to an update of a container is re-bound to an update of'
+           ' ITSELF (the right-hand side mentions the name, or it is an augmented assignment). `result ='
+           ' <fresh container>.copy_and_update(<this stage>)` keeps the last stage only: the merged-shard path of a chain'
+           ' with two aggregating stages reports one of them')
+  mi = ctx.repo.module(TR)
+  fns = list(mi.functions.values()) + [m_ for c in mi.classes.values() for m_ in c.methods.values()]
+  n = 0
+  def fresh(e):
+    return isinstance(e, (ast.Dict, ast.List)) and not (e.keys if isinstance(e, ast.Dict) else e.elts) or (
+        isinstance(e, ast.Call) and not e.args and not e.keywords and unparse(e.func).split('.')[-1] in (
+            'TreeMapView', 'dict', 'list', 'OrderedDict', 'defaultdict'))
+  for fi in fns:
+    body_lists = [x.body for x in ast.walk(fi.node) if hasattr(x, 'body') and isinstance(getattr(x, 'body'), list)]
+    for stmts in body_lists:
+      for i, st in enumerate(stmts):
+        if not (isinstance(st, ast.Assign) and len(st.targets) == 1 and isinstance(st.targets[0], ast.Name) and fresh(st.value)):
+          continue
+        v = st.targets[0].id
+        for later in stmts[i + 1:]:
+          if not isinstance(later, ast.For):
+            continue
+          for x in ast.walk(later):
+            if isinstance(x, ast.Assign) and any(isinstance(t, ast.Name) and t.id == v for t in x.targets) and isinstance(x.value, ast.Call):
+              callee = x.value.func
+              if not (isinstance(callee, ast.Attribute) and ('update' in callee.attr or 'set' in callee.attr or 'merge' in callee.attr)):
+                continue
+              n += 1
+              carried = any(isinstance(y, ast.Name) and y.id == v for y in ast.walk(x.value))
+              what = f'{fi.qualname}: `{v}` assembled over the loop is carried from one iteration to the next'
+              if carried:
+                ctx.ok(rule, fi, what, x)
+              else:
+                ctx.fail(rule, fi, what,
+                         f'`{unparse(x)[:80]}` inside the loop re-binds `{v}` to an update of a FRESH container: what the earlier'
+                         ' iterations (stages) contributed is dropped, only the last one is reported', node=x)
+  ctx.info(rule, fns[0], f'{n} loop-carried assembly site(s) examined')
+  ctx.floor(rule, 0, n)
+
+
 from mlmverif.selfcheck import B, OK  # noqa: E402
 
 _T = 'chainables/transform.py'
 VARIANTS = [
+    B('chain-result-rebuilt-from-empty-per-stage', 'chainables/transform.py',
+      "    it_result = itertools.chain.from_iterable(\n        agg_result.items()\n        for r in self.named_aggs.values()\n        if (agg_result := r.get_result(state))\n    )\n    return tree.TreeMapView().copy_and_update(it_result).data",
+      "    result = tree.TreeMapView()\n    for r in self.named_aggs.values():\n      if agg_result := r.get_result(state):\n        result = tree.TreeMapView().copy_and_update(agg_result.items())\n    return result.data", 'R-C03-17'),
+    OK('chain-result-assembled-in-a-loop', 'chainables/transform.py',
+       "    it_result = itertools.chain.from_iterable(\n        agg_result.items()\n        for r in self.named_aggs.values()\n        if (agg_result := r.get_result(state))\n    )\n    return tree.TreeMapView().copy_and_update(it_result).data",
+       "    result = tree.TreeMapView()\n    for r in self.named_aggs.values():\n      if agg_result := r.get_result(state):\n        result = result.copy_and_update(agg_result.items())\n    return result.data"),
     B('chain-forwards-with-result-to-stages', 'chainables/transform.py',
       "      iterator = r.iterate(\n          iterator,\n          with_agg_state=with_agg_state,", "      iterator = r.iterate(\n          iterator,\n          with_result=with_result,\n          with_agg_state=with_agg_state,", 'R-C03-16'),
     B('iterate-fn-input-tested-by-truth', 'utils/iter_utils.py',
